@@ -37,6 +37,9 @@ pub struct Scenario {
     /// optional extra step run once by the parent in thorough tier (e.g. Miri batch);
     /// returns violations found
     pub thorough_extra: Option<fn(&CheckEnv) -> Result<Vec<Found>, String>>,
+    /// executed once per process before the first run (initialises lazy statics of the code
+    /// under test so that the first run of a process does not differ from the others)
+    pub warmup: Option<fn()>,
 }
 
 pub const DEFAULT_SEED: u64 = 20261003;
@@ -107,7 +110,28 @@ pub enum Exec {
     Hang,
 }
 
+static WARMUP: std::sync::Once = std::sync::Once::new();
+
 pub fn exec_run(sc: &Scenario, tape: Tape, trace_on: bool, want_sample: bool) -> Exec {
+    if let Some(w) = sc.warmup {
+        WARMUP.call_once(|| {
+            // Several sequential threads: the regex crate keeps its per-regex caches in
+            // `thread_id % 8` stacks and builds a cache (whose lazy-DFA state map is a std
+            // HashMap, i.e. one RandomState::new()) whenever a stack is empty. Filling all
+            // stacks up front makes the number of RandomState::new() calls a run performs
+            // independent of which threads ran before it.
+            for _ in 0..17 {
+                let _ = std::thread::Builder::new()
+                    .stack_size(STACK)
+                    .spawn(move || {
+                        crate::hashseed::set_thread_hash_seed(0);
+                        let _ = std::panic::catch_unwind(w);
+                    })
+                    .expect("spawn warmup")
+                    .join();
+            }
+        });
+    }
     let run = sc.run;
     let panic_is_violation = sc.panic_is_violation;
     let (tx, rx) = mpsc::channel();
